@@ -18,13 +18,17 @@ import (
 type C12HistEv struct {
 	Ev   string `json:"ev"`   // "attempt" | "reload"
 	Cred string `json:"cred"` // credential class of an attempt
-	Ver  string `json:"ver"`  // content in force (attempt) / content installed (reload)
+	Ver  string `json:"ver"`  // content of the file (attempt) / content installed (reload)
+	// reload: how the new file's modification time relates to that of the file loaded before
+	Mt string `json:"mt"` // "newer" | "older" | "equal"
+	// the contents that may be in force (more than one after a file came with an unchanged time)
+	Live []string `json:"live"`
 }
 
 // C12Hist is one line of the AccessHist_MC generator (+ replay-only fields).
 type C12Hist struct {
-	Events   []C12HistEv `json:"events"`
-	Verdicts []bool      `json:"verdicts"`
+	Events  []C12HistEv `json:"events"`
+	Allowed [][]bool    `json:"allowed"` // per attempt: the verdicts the specification permits
 	Variant  string      `json:"variant,omitempty"`
 }
 
@@ -107,13 +111,14 @@ func C12HistReferee(ver, class string) (bool, error) {
 }
 
 // C12HistInstall replaces the htpasswd file atomically and gives it a modification time that
-// differs from every earlier one (auth/basic.go reloads when the time changed).
-func C12HistInstall(path, ver string, generation int) error {
+// the caller chooses (newer / older than / equal to that of the file loaded before).
+const C12HistBaseMtime = 1_600_000_000
+func C12HistInstall(path, ver string, mtime int64) error {
 	tmp := path + ".tmp"
 	if err := os.WriteFile(tmp, []byte(C12HistText(ver)), 0o600); err != nil {
 		return err
 	}
-	mt := time.Unix(1_600_000_000+int64(generation)*10, 0)
+	mt := time.Unix(mtime, 0)
 	if err := os.Chtimes(tmp, mt, mt); err != nil {
 		return err
 	}
@@ -126,7 +131,7 @@ func (h *C12Hist) Text() string {
 	k := 0
 	for _, e := range h.Events {
 		if e.Ev == "reload" {
-			xs = append(xs, "reload->"+e.Ver)
+			xs = append(xs, "replace file by "+e.Ver+" (mtime "+e.Mt+")")
 			continue
 		}
 		p, ok := C12HistPairs[e.Cred]
@@ -135,8 +140,12 @@ func (h *C12Hist) Text() string {
 			cred = fmt.Sprintf("%q:%q", p[0], p[1])
 		}
 		v := "?"
-		if k < len(h.Verdicts) {
-			v = map[bool]string{true: "accept", false: "reject"}[h.Verdicts[k]]
+		if k < len(h.Allowed) {
+			var vs []string
+			for _, b := range h.Allowed[k] {
+				vs = append(vs, map[bool]string{true: "accept", false: "reject"}[b])
+			}
+			v = strings.Join(vs, " or ")
 		}
 		xs = append(xs, fmt.Sprintf("%s(%s, spec: %s)", e.Cred, cred, v))
 		k++
